@@ -392,6 +392,7 @@ fn prop_ci(case: &Value) -> Value {
     // counts beyond the 32-bit integers of the validator are written a * 2^p
     let big = |v: &Value| (v["a"].as_u64().unwrap() as usize) << v["p"].as_u64().unwrap();
     let n = if case.get("nbig").is_some() { big(&case["nbig"]) } else { case["n"].as_u64().unwrap() as usize };
+    let n = n + case.get("nplus").and_then(|x| x.as_u64()).unwrap_or(0) as usize;      // n = a * 2^p + r
     let k = if case.get("kbig").is_some() { big(&case["kbig"]) } else { case["k"].as_u64().unwrap() as usize };
     // "kminus": all but that many trials succeeded
     let k = if let Some(m) = case.get("kminus").and_then(|x| x.as_u64()) { n - m as usize } else { k };
@@ -694,7 +695,7 @@ fn quant_data(case: &Value) -> Value {
 pub fn run(case: &Value) -> Vec<Value> {
     let ev = match case["op"].as_str().unwrap() {
         "mean.ci" => if case["ty"] == "f32" { mean_ci::<f32>(case) } else { mean_ci::<f64>(case) },
-        "prop.ci" | "prop.big" => prop_ci(case),
+        "prop.ci" | "prop.big" | "prop.xlev" => prop_ci(case),
         "prop.sig" => prop_sig(case),
         "prop.stats_new" => prop_stats_new(case),
         "quant.ranks" => quant_ranks(case),
